@@ -742,3 +742,7 @@ mod test {
         assert!(difference.l2_norm() < f64::EPSILON * 100.0);
     }
 }
+
+#[cfg(any(kani, aszepieniec_falcon_rust_verif))]
+#[path = "/verif/hooks/polynomial.rs"]
+pub(crate) mod verif_hook;
